@@ -57,6 +57,7 @@ func TestC12Shutdown(t *testing.T) {
 		state := rapid.SampledFrom([]string{"never-connected", "dialing", "awaiting-connack", "resending", "online-idle", "online-holding",
 			"writers-parked", "offline-after-failed-connect", "reconnect-pending", "already-closed", "remote-closed-unnoticed", "next-write-fails"}).Draw(rt, "state")
 		h.Act("state %s", state)
+		h.label("state:" + state)
 		nontrivial := state != "online-idle" && state != "never-connected"
 		defer func() { h.finish(nontrivial) }()
 
